@@ -71,3 +71,19 @@ Theorem C20_display_single_line : forall (A : Type) (c : cfg) (es : Z) (render :
          [ch_rb]) /\ forall row, 0 <= row < nrows m -> zlen (row_cells_text render m row ew) = ncols m * ew + INTER_GAP * (ncols m - 1).
 Proof. intros A c es render m. exact (display_single_line c es render m). Qed.
 Print Assumptions C20_display_single_line.
+
+(* single-line renderings, Debug: the header line with the column numbers, then per logical row (in order): the row number,
+   "[", and for each column in order the position flat(row, col) of the element in the element store, a space, and its
+   rendering padded to the common width; "]" *)
+Theorem C20_debug_single_line : forall (A : Type) (c : cfg) (es : Z) (render : A -> text) (m : matrix A),
+  Coh c es m -> is_empty m = false ->
+  (forall r cl, 0 <= r < nrows m -> 0 <= cl < ncols m -> exists x, lines_at render m r cl = [x]) ->
+  let ew := max_width (build_cache render m) in
+  let iw := zlen (dec (size m)) in
+  fmt_debug_gen c render m =
+    Val ((debug_header (ncols m) ew iw ++ [ch_nl]) ++
+         concat (map (fun row => (pad_space TAB_SIZE ++ pad_left_dec row iw ++ pad_space OUTER_GAP ++ [ch_lb]) ++
+                                 debug_cells_text render m row ew iw ++ [ch_rb; ch_nl]) (zseq (nrows m))) ++
+         [ch_rb]).
+Proof. intros A c es render m. exact (debug_single_line c es render m). Qed.
+Print Assumptions C20_debug_single_line.
